@@ -354,9 +354,11 @@ pub fn snapshot(loc: &Path) -> Snapshot {
         } else {
             let rel = p.strip_prefix(base).unwrap_or(p).to_string_lossy().into_owned();
             let bytes = std::fs::read(p).unwrap_or_default();
+            // a link: the inode is the link's, the modification time the one of the file it leads to
+            let tmd = if md.file_type().is_symlink() { std::fs::metadata(p).unwrap_or(md.clone()) } else { md.clone() };
             s.insert(
                 rel,
-                FileStat { bytes, ino: md.ino(), mtime_ns: md.mtime() as i128 * 1_000_000_000 + md.mtime_nsec() as i128 },
+                FileStat { bytes, ino: md.ino(), mtime_ns: tmd.mtime() as i128 * 1_000_000_000 + tmd.mtime_nsec() as i128 },
             );
         }
     }
